@@ -119,7 +119,7 @@ func init() {
 }
 
 func checkC05(c *core.Ctx) {
-	c.Explainf("C05 (decided clauses). R1: every iohelp stream reader reads exactly the width of its wire type through io.ReadFull on the ErrorReader, whose Read is itself io.ReadFull on the underlying reader — chunking is absorbed in one place. R2: nothing but ErrorReader.Read, Drain and the constructor touches the underlying reader; no emitted decoder reads r.Reader other than to install/restore the limiter. R3: limiter typestate of every emitted message/union DecodeBebop: the limiter is installed over the saved base reader, Drain happens only while limited, every `return r.Err` happens after the base reader is restored. R4: struct decoders install no limiter. R5: the Make<T>(r) wrappers of records with framing always decode. NOT decided: 'consumed == Size() of the decoded value' (false by design when deprecated/unknown fields are on the wire); readers that violate the io.Reader contract.")
+	c.Explainf("C05 (decided clauses). R1: every iohelp stream reader reads exactly the width of its wire type through io.ReadFull on the ErrorReader, whose Read is itself io.ReadFull on the underlying reader — chunking is absorbed in one place. R2: nothing but ErrorReader.Read, Drain and the constructor touches the underlying reader; no emitted decoder reads r.Reader other than to install/restore the limiter. R2c: the constructor stores the caller's reader itself — nothing that reads ahead (bufio) is put in between. R3: limiter typestate of every emitted message/union DecodeBebop: the limiter is installed over the saved base reader, Drain happens only while limited, every `return r.Err` happens after the base reader is restored, and none is taken between reading the length prefix and consuming the body it announces (other than for a prefix of zero). R4: struct decoders install no limiter. R5: the Make<T>(r) wrappers of records with framing always decode. NOT decided: 'consumed == Size() of the decoded value' (false by design when deprecated/unknown fields are on the wire); readers that violate the io.Reader contract.")
 	gr := startGen(c)
 	if gr == nil {
 		return
@@ -142,6 +142,8 @@ func checkC05(c *core.Ctx) {
 			fmt.Sprintf("limiter %+v — %s", l, rf.where(l.Pos)))
 		c.Check("R3", "every return of the latch happens with the base reader restored "+frameKey(rf), anchorPos(gr.p, rf.Spec.Kind, mSR), len(l.ReturnsBad) == 0,
 			fmt.Sprintf("%d `return r.Err` while the limiter is still installed: the caller's next read would be cut short or run past the record — %s", len(l.ReturnsBad), rf.where(firstPos(l.ReturnsBad))))
+		c.Check("R3", "no return between the length prefix and the body "+frameKey(rf), anchorPos(gr.p, rf.Spec.Kind, mSR), len(l.ShortReturns) == 0,
+			fmt.Sprintf("%d shortcut return(s) right after the length prefix for a prefix other than zero: the bytes the prefix announces (at least the terminator) stay on the stream and the next record is read from the middle of this one — %s", len(l.ShortReturns), rf.where(firstPos(l.ShortReturns))))
 		c.Check("R3", "Drain only while limited "+frameKey(rf), anchorPos(gr.p, rf.Spec.Kind, mSR), len(l.DrainBad) == 0,
 			fmt.Sprintf("%d Drain calls on the unbounded base reader: would swallow every following record — %s", len(l.DrainBad), rf.where(firstPos(l.DrainBad))))
 		// R5: the Make wrapper decodes unless the record has no wire footprint
@@ -204,7 +206,7 @@ func firstPos(ps []tokenPos) tokenPos {
 }
 
 func checkC08(c *core.Ctx) {
-	c.Explainf("C08 (decided clauses). R1: ErrorReader.Read and ErrorWriter.Write store the underlying error into .Err on the err != nil path and return it. R2: nothing else in iohelp touches the underlying stream. R3: every return of every emitted EncodeBebop/DecodeBebop is the latch (w.Err / r.Err) or the err of a nested call; `return nil` only where no I/O was performed. R4: every nested EncodeBebop / Make<T>(r) is followed at once by `if err != nil { return err }`. R5: no call on the underlying stream has its error assigned to _ (Drain). R6: the constructors return an existing wrapper unchanged, so nested records share the latch. NOT decided: 'does not hang'; that an error from one Write makes later Writes harmless is the io.Writer contract.")
+	c.Explainf("C08 (decided clauses). R1: ErrorReader.Read and ErrorWriter.Write store the underlying error into .Err on the err != nil path and return it. R2: nothing else in iohelp touches the underlying stream. R2c: the constructors store the caller's stream itself (no buffering layer that defers writes and their errors). R3: every return of every emitted EncodeBebop/DecodeBebop is the latch (w.Err / r.Err) or the err of a nested call; `return nil` only where no I/O was performed. R4: every nested EncodeBebop / Make<T>(r) is followed at once by `if err != nil { return err }`. R5: no call on the underlying stream has its error assigned to _ (Drain). R6: the constructors return an existing wrapper unchanged, so nested records share the latch. NOT decided: 'does not hang'; that an error from one Write makes later Writes harmless is the io.Writer contract.")
 	gr := startGen(c)
 	if gr == nil {
 		return
